@@ -745,7 +745,7 @@ def run():
     cfgs = configs(chk)
     with ThreadPoolExecutor(max_workers=16) as pool:
         for c in cfgs:
-            if len(chk.failing) >= 5 or len(chk.failing) + len(chk.broken) > 40:
+            if len(chk.failing) >= 3 or len(chk.failing) + len(chk.broken) > 40:
                 break
             run_config(chk, crash, model, c, stats, pool)
     two_sink_leg(chk, crash, model, stats)
